@@ -193,10 +193,12 @@ func (c *compiler) compile(w io.Writer, isMainModule bool) (result *Result, rerr
 	// visit every statement in the modules AST and compile it
 	for _, stmt := range c.ddpModule.Ast.Statements {
 		if isMainModule {
+			c.initNestedImports(stmt)
 			c.visitNode(stmt)
 		} else {
 			switch stmt.(type) {
 			case *ast.DeclStmt, *ast.ImportStmt, *ast.FuncDef:
+				c.initNestedImports(stmt)
 				c.visitNode(stmt)
 			default:
 				// in imports we only visit declarations and ignore other top-level statements
@@ -2372,6 +2374,29 @@ func (c *compiler) VisitImportStmt(s *ast.ImportStmt) ast.VisitResult {
 		}
 		return true
 	})
+	c.initImportedModules(s)
+	return ast.VisitRecurse
+}
+
+// the modules of import statements that are nested in the top-level statement stmt
+// (in a loop, a branch or a function body) are initialised before stmt, exactly like
+// those of a top-level import: once, and before any code that follows the import can run.
+// The nested import statement itself then finds them already imported and emits no call
+// (it would be executed once per iteration/call, or never)
+func (c *compiler) initNestedImports(stmt ast.Statement) {
+	if _, isImport := stmt.(*ast.ImportStmt); isImport {
+		return
+	}
+	ast.VisitNode(ast.ImportStmtVisitorFunc(func(imprt *ast.ImportStmt) ast.VisitResult {
+		c.initImportedModules(imprt)
+		return ast.VisitRecurse
+	}), stmt, nil)
+}
+
+// declares the module_init/module_dispose functions of all modules imported by s
+// (and of the modules they import) that were not imported yet
+// and calls their module_init functions at the current position in ddp_main
+func (c *compiler) initImportedModules(s *ast.ImportStmt) {
 	// only call the module init func once per module
 	// and also initialize the modules that this module imports
 	for _, mod := range s.Modules {
@@ -2397,7 +2422,6 @@ func (c *compiler) VisitImportStmt(s *ast.ImportStmt) ast.VisitResult {
 			c.importedModules[module] = struct{}{}
 		})
 	}
-	return ast.VisitRecurse
 }
 
 func (c *compiler) VisitAssignStmt(s *ast.AssignStmt) ast.VisitResult {
